@@ -258,6 +258,35 @@ func (w *World) runProperty(props []string, fns []string, smtDir string, perChec
 			res.obls[n] = o
 			res.order = append(res.order, n)
 		}
+		// the aggregate "this function cannot panic on its own": every safety
+		// goal and every precondition of a library stub that was generated
+		// for it is discharged. It is a claimed obligation for functions that
+		// were panic-free at lock time, so that a change which adds a new
+		// panicking site (a goal with a new name) fails an obligation that
+		// used to hold.
+		if x.contract != nil && !x.contract.Trusted && len(x.errors) == 0 {
+			agg := &obligation{Name: x.entryKey + "#safety:every-generated-safety-goal", Fn: x.entryKey, Kind: "safety", Props: []string{"C14"}, Status: "discharged", Solver: "aggregate of the function's safety goals", Inst: 1}
+			for _, n := range names {
+				o := res.obls[n]
+				k := n[strings.Index(n, "#")+1:]
+				if !(strings.HasPrefix(k, "safety:") || (strings.HasPrefix(k, "pre:") && isStubPre(k))) {
+					continue
+				}
+				agg.goals = append(agg.goals, o.goals...)
+				if o.Status != "discharged" {
+					agg.Status = "undecided"
+					if agg.Clause == "" {
+						agg.Clause = "first safety goal that is not discharged: " + n + " (" + o.Clause + ")"
+						agg.Where = o.Where
+					}
+				}
+			}
+			if agg.Clause == "" {
+				agg.Clause = "every safety goal and library precondition generated for this function is discharged"
+			}
+			res.obls[agg.Name] = agg
+			res.order = append(res.order, agg.Name)
+		}
 	}
 	return res
 }
@@ -271,6 +300,19 @@ func absentIsBenign(n string) bool {
 	}
 	k := n[i+1:]
 	return strings.HasPrefix(k, "safety:") || strings.HasPrefix(k, "pre:") || k == "frame" || strings.HasSuffix(k, ":frame") || strings.HasSuffix(k, ":range-bound") || strings.HasPrefix(k, "cover:loop:") || strings.HasPrefix(k, "cover:after:")
+}
+
+// isStubPre: the precondition belongs to a library function (reflect.,
+// strings., ...: a documented panic condition), not to a dig function.
+func isStubPre(k string) bool {
+	k = strings.TrimPrefix(k, "pre:")
+	k = strings.TrimLeft(k, "(*")
+	for _, p := range []string{"reflect.", "strings.", "strconv.", "fmt.", "errors.", "sort.", "rand.", "io.", "digreflect.", "digclock."} {
+		if strings.HasPrefix(k, p) {
+			return true
+		}
+	}
+	return false
 }
 
 func fnVerified(res *checkResult, fn string) bool {
